@@ -169,7 +169,12 @@ fn lex_block_string(lexer: &mut Lexer<'_, TokenKind>) -> bool {
                 return true;
             }
             BlockStringToken::EscapedTripleQuote | BlockStringToken::Other => {}
-            BlockStringToken::Error => unreachable!(),
+            // A character outside of the SourceCharacter range accepted by `Other` (a control
+            // character or a character above U+FFFF): report it like in a regular string.
+            BlockStringToken::Error => {
+                lexer.extras.error_token = Some(TokenKind::ErrorUnsupportedStringCharacter);
+                return false;
+            }
         }
     }
     lexer.extras.error_token = Some(TokenKind::ErrorUnterminatedBlockString);
